@@ -7,14 +7,13 @@ critical sections, any number of senders, any peer behaviour, any order of trans
 (`run s es` for an arbitrary list of events).  The correspondence check forces such orders on
 the real pools and replays them through `step`.
 
-Proved for every schedule: the number of messages the peer commits equals the number of
-successful sends, and every connection id a thread or the pool holds denotes an existing
-connection.  Not proved (checked on every replayed schedule, and by the peer-side oracle that
-transactions are whole and carry one sender's identity): the exclusivity invariant
-
-    theorem excl_run : (owned s').Nodup     -- parked ∪ in use ∪ being returned ∪ held by the worker
-
-which is what makes one transition of the model (lock + the lock-free work after it) atomic.
+Proved for every schedule: a connection is in at most one place at any time (parked, held by
+one sender, waiting in one recycle task, or held by the maintenance worker) — which is what
+makes one transition of the model (lock + the lock-free work after it) atomic; the number of
+messages the peer commits equals the number of successful sends; every connection id a thread
+or the pool holds denotes an existing connection.  That transactions are whole and carry one
+sender's identity from MAIL to the committed content is the peer-side oracle on every replayed
+schedule (in the model a transaction is one atomic step of `transact`).
 -/
 namespace LV.C07
 open LV.PoolLts
@@ -28,6 +27,15 @@ theorem commits_equal_successes (isAsync : Bool) (maxSize minIdle sends nSenders
     (hr : run (init isAsync maxSize minIdle sends nSenders plans) es = some s) :
     totalCommits s = totalOk s :=
   (valid_count_run es _ s (valid_init ..) (count_init ..) hr).2
+
+/-- **One user at a time.** Under every interleaving, every connection is in at most one place:
+    parked in the idle set, held by exactly one sender, waiting in exactly one (tokio) recycle
+    task, or held by the maintenance worker — never two of these, never twice in one. -/
+theorem one_place_at_a_time (isAsync : Bool) (maxSize minIdle sends nSenders : Nat)
+    (plans : List (Option Nat × Option Nat)) (es : List Ev) (s : St)
+    (hr : run (init isAsync maxSize minIdle sends nSenders plans) es = some s) (c : Nat) :
+    occ s c ≤ 1 :=
+  (valid_excl_run es _ s (valid_init ..) (excl_init isAsync maxSize minIdle sends nSenders plans) hr).2 c
 
 /-- One transition: a transaction adds exactly one commit to the connection it runs on iff it
     reports success (and leaves every other connection alone). -/
